@@ -480,7 +480,7 @@ indented "block value" into a single line value more
 cleanly.
 */
 func condenseWHSP(b string) string {
-	b = trimS(b)
+	b = strings.Trim(b, " \t")
 
 	var last bool // previous char was WHSP or HTAB.
 	var builder strings.Builder
